@@ -4,9 +4,27 @@ import vlib, parts_resub, parts_multi
 PID = 'C15'
 
 
+def wait_model_part(rep):
+    """Level 2: WaitImpl.tla - subscription.go Add / Unsubscribe / Wait at the grain of the code.  The operators of this property loop on sub.Wait(): the
+    attempt is released when Wait returns only if Wait also waits for the batch of finalizers a concurrent disposer is running (repair b531a22).  The repaired
+    design is model-checked (safety + termination); the former design is EXPECTED to violate ReleasedWhenWaitReturns (the run found on the real code)."""
+    r = vlib.run_tlc('WaitImpl', 'WaitImpl_repaired.cfg', timeout=300, deadlock=False)
+    vlib.tlc_must_pass(r, 'WaitImpl_repaired.cfg')
+    rep.add_states(r)
+    rep.parts['tlc:WaitImpl_repaired.cfg'] = dict(ok=r.ok, violated=r.violation, generated=r.generated, distinct=r.distinct)
+    if r.violation:
+        rep.inconclusive.append('Level-2 model WaitImpl_repaired.cfg violates %s (model only)' % r.violation)
+    r = vlib.run_tlc('WaitImpl', 'WaitImpl_former.cfg', timeout=300, deadlock=False)
+    rep.add_states(r)
+    rep.parts['tlc:WaitImpl_former.cfg'] = dict(violated=r.violation, note='the design before repair b531a22: Wait returns while the disposer is inside a teardown (expected counterexample)')
+    if r.violation != 'ReleasedWhenWaitReturns':
+        rep.inconclusive.append('WaitImpl_former.cfg was expected to violate ReleasedWhenWaitReturns, TLC reports %s' % r.violation)
+
+
 def main(argv):
     rep = vlib.Report(PID, 'model_checking', argv)
     vlib.build_harness()
+    wait_model_part(rep)
     parts_resub.run(rep, PID, rep.tier == 'thorough')
     # ConcatAll / FlatMap over an asynchronous outer source: one inner source at a time, the outer notification waits for it (HO.tla)
     parts_multi.run_ho(rep, PID, rep.tier == 'thorough')
